@@ -262,3 +262,27 @@ CHECKS["C10"] = {
     "outside": ["CFF fonts (simple and CID-keyed) and their private dictionaries / font matrices / built-in encodings", "GSUB 1.1 rules, format 4 cmaps", "writing and re-reading the subset", "fonts with more than 6 glyphs"],
     "assumptions": ["glyph names identify outlines when checking that component references and ligature results point to the same outline"],
 }
+
+CHECKS["C20"] = {
+    "harnesses": [
+        H(".", ["c20.go", "common.go"], "VerifH_C20_names", ["named"], quick={"params": {"maxnamelen": 1}, "timeout": 280, "shards": 3}, thorough={"params": {"maxnamelen": 1, "fullsym": 1}, "timeout": 2400, "shards": 3}),
+    ],
+    "bounds": {"quick": "TrueType font with 4 glyphs whose names are absent, a too-short list, or 4 symbolic strings of length 0..1 [2 in thorough] over {A,B,.} (missing, duplicate and colliding names are solver-chosen); format 12 cmap for 'A' and 'B' with one [thorough: two] symbolic target glyph(s); none or one GSUB 1.2 / 3.1 / 4.1 subtable with one [two] symbolic in-range glyph id(s); nondeterministic map iteration order; MakeGlyphNames twice, EnsureGlyphNames, GlyphName",
+               "thorough": "same"},
+    "outside": ["PostScriptName (regexp over a symbolic string)", "CFF fonts / MakeSimple", "more than 4 glyphs, names longer than 2 bytes"],
+    "assumptions": ["GSUB rules refer to existing glyphs (as the property's quantifier states)"],
+}
+
+CHECKS["C15"] = {
+    "harnesses": [
+        H(".", ["c15.go", "common.go"], "VerifH_C15_plain", ["laid out"], quick={"params": {"maxlen": 2}, "timeout": 280}, thorough={"params": {"maxlen": 3}, "timeout": 2400}),
+        H(".", ["c15.go", "common.go"], "VerifH_C15_kern", ["laid out"], quick={"timeout": 280}),
+        H(".", ["c15.go", "common.go"], "VerifH_C15_liga", ["ligatures"], quick={"timeout": 280}),
+        H("opentype/gtab", ["c15.go", "common.go"], "VerifH_C15_find", ["found"], quick={"timeout": 280}),
+        H("kern", "c02.go", "VerifH_C02_kern", ["accepted"], quick={"params": {"maxpairs": 1}, "timeout": 280, "shards": 3}),
+    ],
+    "bounds": {"quick": "4-glyph TrueType font with symbolic widths, strings of 0..2 characters from {A,B,f,i,Z,U+1F600} (mapped and unmapped), layouter reused for a second call; kerning pairs with symbolic values in the structure sfnt.Read builds for a legacy kern table, strings of 2..3 characters; standardLigatures for all 32 presence patterns of U+FB00..FB04; FindLookups with 1..2 language systems, symbolic required/optional feature indices and lookup indices (incl. out of range), default or explicit switches, three query languages, nondeterministic map order; kern.Read vs the specification (shared with C02)",
+               "thorough": "strings of 3 characters"},
+    "outside": ["whole-font reading (sfnt.Read) and the best-subtable choice inside it (C09)", "20 language systems", "GSUB features beyond the synthesized ligatures"],
+    "assumptions": ["language matching (golang.org/x/text/language) runs natively on concrete tags"],
+}
